@@ -1,5 +1,5 @@
 """C10 — whatever the repository editor signs and writes, the client loads back unchanged."""
-import z3, json, os
+import z3, json, os, itertools
 from client import *
 import editor
 from editor import InT, InX, same, conj
@@ -89,6 +89,32 @@ def chain(R, I, tier):
                 R.obligation(f'{label}: nothing else is written into the metadata directory', s.pc, z3.BoolVal(not others), decode=dec, group='write/nothing-else')
             R.samples.append({'case': label, 'paths': len(fin), 'written ok': len(oks)})
 
+def programs(R, I, tier):
+    """editing programs over symbolic names (names may coincide with each other and with names already listed): the signed top-level
+    target map must be what a reference evaluation of the program gives, for every name"""
+    import props.C17 as C17
+    progs = [['add', 'remove'], ['remove', 'add'], ['add', 'add', 'remove'], ['clear', 'add'], ['add', 'clear']] if tier == 'quick' else \
+            [list(p) for n in (1, 2, 3) for p in itertools.product(['add', 'remove', 'clear'], repeat=n)]
+    R.bounds['editing programs'] = f'{len(progs)} operation sequences of length <= 3 over add / remove / clear with symbolic names (aliasing allowed), on a repository loaded with from_repo'
+    for prog in progs:
+        label = 'program[' + ','.join(prog) + ']'
+        W, fin = editor.run_update(I, C17.SHAPES['no-delegations'], 0, program=prog)
+        R.check_interp_clean(I, label)
+        oks = [x for x in fin if x[1] == 'sign' and x[2] == 'Ok']
+        R.paths += len(fin)
+        R.reach_any(f'{label}: sign succeeds', [s.pc for s, _, _, _ in oks])
+        k = z3.BitVec('anyname', 8)
+        for s, stage, tag, sr in oks:
+            out_t = fld(fld(fld(sr, 'SignedRepository', 'targets'), 'SignedRole', 'signed'), 'Signed', 'signed')
+            tm = dr(I, s, fld(out_t, 'Targets', 'targets'))
+            def dec(m, W=W, prog=prog):
+                ev = lambda t: m.eval(t, model_completion=True).as_long()
+                ids = sorted({ev(op[1]) for op in W['program'] if len(op) > 1} | {ev(k)})
+                return {'kind': 'program', 'program': [[op[0], ev(op[1])] if len(op) > 1 else [op[0]] for op in W['program']], 'name': ev(k),
+                        'listed_before': [i for i in ids if m.eval(InT(IDV(0), z3.BitVecVal(i, 8)), model_completion=True).as_long() != 0]}
+            R.obligation(f'{label}: after signing, targets.json lists exactly what the program leaves (later operations win; removed names are gone)', s.pc, tm.d['f'](k) == editor.program_reference(W, k), decode=dec, group='program/target-set')
+        R.samples.append({'case': label, 'paths': len(fin), 'ok': len(oks)})
+
 def check(R, tier):
     I = R.interp('tough'); install_world(I)
     R.bounds.update({'chain': 'from_repo -> setters -> add_target -> sign -> SignedRepository::write on the C17 repository shapes', 'maps': 'arbitrary functions (any size)'})
@@ -104,6 +130,7 @@ def check(R, tier):
                     (re.compile(r'^<&str as AsRef<std::path::Path>>::as_ref$'), m_as_path)]
     try:
         chain(R, I, tier)
+        programs(R, I, tier)
     finally:
         I.models[:] = saved
     import props.c10_units as U
@@ -126,11 +153,27 @@ def native(R, tier):
             R.report_violation(d['what'], {'op': 'editor_roundtrip', 'seed': seed, 'program': d['program'], 'log': d['log']}, finding_key='file-transport-encoded-target-name')
     for d in real[:3]:
         R.report_violation('editor round trip: ' + d['what'] + ' — program: ' + '; '.join(d['log'])[:600], {'op': 'editor_roundtrip', 'seed': seed, 'program': d['program'], 'log': d['log']})
-    if R.counterexamples and not real:
-        for cx in R.counterexamples[:3]:
+    # editing-program counterexamples have their own exact replay
+    replayed = set()
+    for cx in [c for c in R.counterexamples if c['group'] == 'program/target-set']:
+        sc = cx.get('scenario') or {}
+        key = json.dumps([sc.get('program'), sc.get('listed_before')])
+        if key in replayed: continue
+        replayed.add(key)
+        r2 = R.replay('editor_program', {'program': sc.get('program'), 'listed_before': sc.get('listed_before')})
+        if r2.get('violations'):
+            if not any(v['what'].startswith('editing program') for v in R.violations):
+                R.report_violation('editing program: ' + r2['violations'][0], {'op': 'editor_program', 'program': sc.get('program'), 'listed_before': sc.get('listed_before')})
+        else:
+            R.inconclusive.append(f'counterexample for "{cx["obligation"]}" did not reproduce natively: {json.dumps(sc)[:300]} -> {json.dumps(r2)[:200]}')
+    others = [c for c in R.counterexamples if c['group'] != 'program/target-set']
+    if others and not real:
+        for cx in others[:3]:
             R.inconclusive.append(f'counterexample for "{cx["obligation"]}" did not show up in the native editor sweep ({st["programs"]} programs): {str(cx.get("scenario"))[:300]}')
 
 def replay_file(R, path):
     sc = json.load(open(path))['scenario']
+    if sc.get('op') == 'editor_program':
+        print(json.dumps(R.replay('editor_program', {'program': sc['program'], 'listed_before': sc['listed_before']}))); return 0
     res = R.replay('editor_roundtrip', {'seed': sc.get('seed', 0), 'programs': sc.get('program', 0) + 1}, timeout=3000)
     print(json.dumps([d for d in res['deviations'] if d['program'] == sc.get('program')] or res['deviations'])); return 0
